@@ -288,6 +288,9 @@ func (c42Engine) Generate(seed uint64, tier string) *simrun.Case {
 		// A = [endpoint, user, v1, v2]; all values pairwise distinct across the batch (i is mixed in)
 		c.Ops = append(c.Ops, simrun.Op{C: i + 1, K: "req", A: []int64{int64(ep), int64(r.Intn(len(c42Users))), int64(10*i + 1 + r.Intn(9)), int64(2 + r.Intn(5))}})
 	}
+	// swarm: in two thirds of the runs every mutex release is followed by a scheduling point (a goroutine can lose
+	// the processor right after an Unlock, before its next statement)
+	c.Knobs["unlock_yield"] = []int64{0, 1, 1}[r.Intn(3)]
 	return c
 }
 
